@@ -7,7 +7,7 @@ from vf.lang import ast_shrinks, show, show_value, typeof, walk
 from vf.props.c01 import ast_signature, evaluate_against_oracle
 
 F_MODES = ["eager", "lazy", "reflect", "normalize"]
-S_MODES = ["eager", "lazy", "reflect"]
+S_MODES = ["eager", "lazy", "reflect", "normalize"]
 
 
 def interactions(f, subs):
